@@ -1397,10 +1397,13 @@ func (enc *VP8Encoder) EncodeFrame() ([]byte, error) {
 		// Serial path: collect stats separately (not merged into encodeFrame).
 		enc.collectAllStats(&stats)
 	}
-	if optimizeProba(&stats, &enc.proba) > 0 {
-		// Re-record tokens with optimized probabilities.
-		enc.rerecordAllTokens()
-	}
+	optimizeProba(&stats, &enc.proba)
+	// Re-record tokens with the final probabilities. Tokens carry the
+	// probability values that were current when they were recorded, and the
+	// mid-stream refreshes change the tables while the frame is being encoded,
+	// so this is needed even when the last optimisation changes no entry:
+	// the header signals the final tables, and every token must use them.
+	enc.rerecordAllTokens()
 
 	// Emit the VP8 bitstream.
 	frameData, err := enc.emitFrame()
